@@ -386,6 +386,8 @@ class Exec:
                 self.model.update_parameters(p_before)
         if getattr(self, "interrupted", False):
             tag.append("after_interrupted_read")
+        if getattr(self, "scribbled", False):
+            tag.append("after_caller_scribbled_on_a_returned_view")
         try:
             got = self.call(op)
         except HarnessError:
@@ -405,6 +407,23 @@ class Exec:
             self.counters["repeated_reads"] += 1
         else:
             self.first_reads[key] = copy.deepcopy(got)
+        if op.get("scribble"):
+            # the caller works on what it was handed IN PLACE (rescales a frame for a plot);
+            # everything above was compared against copies, later reads must not notice
+            keep = copy.deepcopy(got)
+            try:
+                objs = got if isinstance(got, list) else [got]
+                for o in objs:
+                    if isinstance(o, pd.DataFrame) and o.size:
+                        o.iloc[:, :] = o.to_numpy(dtype=float) * 1000.0 + 7.0
+                    elif isinstance(o, dict):
+                        for kk in list(o):
+                            o[kk] = -1.0
+                self.counters["caller_scribbled_on_returned_view"] += 1
+                self.scribbled = True
+            except Exception as e:  # noqa: BLE001
+                self.trace.add("scribble", "exc", type(e).__name__)
+            got = keep
         if v == "get_new_y0":
             times, vals, cols = self.segments[-1]
             want = dict(zip(cols, (float(x) for x in vals[-1]), strict=True))
@@ -517,6 +536,8 @@ def gen_case(rng: SimRng, tier: str) -> dict:  # noqa: ARG001, C901, PLR0912
                 op["normalise"] = {"kind": "per_segment", "values": [r.choice([2.0, 0.5, 4.0, 8.0]) for _ in range(4)]}
             else:
                 op["normalise"] = {"kind": "per_row", "values": [r.choice([2.0, 0.5, 4.0, 8.0, 1.0]) for _ in range(7)]}
+        if r.random() < 0.12:
+            op["scribble"] = True
         if r.random() < 0.06:
             op["interrupt_at"] = r.choice([0, 1, 2, 3, 4, 5, 6, 8, 9, 11, 13, 16])
         if v == "get_args":
